@@ -1,5 +1,5 @@
 (* C06: COBS-framed output is one well-formed frame and decodes back, frame by frame. *)
-From PV Require Import Base MachineInt DataModel Ser De Cobs CobsRef SerFlavors DeFlavors CobsEncFacts Sinks Thresholds Cobs Crc SerFlavors ModDecl GenModifiers ModInterp ModFacts.
+From PV Require Import Base MachineInt DataModel Ser De Cobs CobsRef SerFlavors DeFlavors CobsEncFacts Sinks Thresholds Cobs Crc SerFlavors ModDecl GenModifiers ModInterp ModFacts GenEntryPoints.
 Open Scope N_scope.
 
 (* the streaming encoder with its placeholder back-patching, on growable storage, produces
@@ -77,6 +77,13 @@ Theorem C06_modifiers_define_exactly :
   crc_de_entry_points_finalize_through_the_modifier = true.
 Proof. exact modifiers_define_exactly. Qed.
 
+(* from_bytes, take_from_bytes, from_bytes_cobs and take_from_bytes_cobs of de/mod.rs match, token
+   for token up to renaming of locals, the code DeFlavors.from_bytes_cobs / take_from_bytes_cobs
+   were written from: decode_in_place[_report], the optional sentinel after src_used, the two
+   split_at_mut, from_bytes on the decoded prefix (re-checked on every run) *)
+Theorem C06_entry_points_are_the_source : de_entry_points_standard = true.
+Proof. reflexivity. Qed.
+
 Print Assumptions C06_output_is_cobs.
 Print Assumptions C06_output_heapless.
 Print Assumptions C06_output_slice.
@@ -88,3 +95,4 @@ Print Assumptions C06_frames_no_last_sentinel.
 Print Assumptions C06_cobs_try_push_is_the_source.
 Print Assumptions C06_cobs_finalize_is_the_source.
 Print Assumptions C06_modifiers_define_exactly.
+Print Assumptions C06_entry_points_are_the_source.
